@@ -71,3 +71,100 @@ pub fn good_year_fact(d: WeekDate) -> Option<WeekDate> {
     let p = WeekDate::new(d.year() - 1, 1)?;
     WeekDate::new(p.year(), p.weeks_in_year())
 }
+
+// ---- CANON-NAME controls -------------------------------------------------------------------------------------------
+pub struct TimeZone {
+    pub name: String,
+}
+
+impl TimeZone {
+    pub fn tzif(name: &str, data: &[u8]) -> Option<TimeZone> {
+        if data.is_empty() {
+            return None;
+        }
+        Some(TimeZone { name: name.to_string() })
+    }
+}
+
+pub struct Entry {
+    pub name: String,
+}
+
+pub fn bad_canon_name(query: &str, e: &Entry, data: &[u8]) -> Option<TimeZone> {
+    if !e.name.eq_ignore_ascii_case(query) {
+        return None;
+    }
+    let name = query;
+    TimeZone::tzif(name, data)
+}
+
+pub fn good_canon_name(query: &str, e: &Entry, data: &[u8]) -> Option<TimeZone> {
+    if !e.name.eq_ignore_ascii_case(query) {
+        return None;
+    }
+    TimeZone::tzif(&e.name, data)
+}
+
+// ---- DUMMY-GUARD controls ------------------------------------------------------------------------------------------
+pub struct Table {
+    pub ts: Vec<i64>,
+    pub ty: Vec<u8>,
+}
+
+impl Table {
+    fn is_noop(&self, i: usize) -> bool {
+        i > 0 && self.ty[i] == self.ty[i - 1]
+    }
+
+    fn local_time_type(&self, i: usize) -> u8 {
+        self.ty[i]
+    }
+
+    pub fn bad_dummy_guard(&self, start: usize) -> Option<u8> {
+        let mut index = start.checked_sub(1)?;
+        if index == 0 {
+            return None;
+        }
+        while index > 0 && self.is_noop(index) {
+            index -= 1;
+        }
+        Some(self.local_time_type(index))
+    }
+
+    pub fn good_dummy_guard(&self, start: usize) -> Option<u8> {
+        let mut index = start.checked_sub(1)?;
+        if index == 0 {
+            return None;
+        }
+        while index > 0 && self.is_noop(index) {
+            index -= 1;
+        }
+        if index == 0 {
+            return None;
+        }
+        Some(self.local_time_type(index))
+    }
+}
+
+// a private helper that is handed the entry's name is fine; the same helper handed the query is not
+fn build_zone(name: &str, data: &[u8]) -> Option<TimeZone> {
+    TimeZone::tzif(name, data)
+}
+
+pub fn good_canon_helper(query: &str, e: &Entry, data: &[u8]) -> Option<TimeZone> {
+    if !e.name.eq_ignore_ascii_case(query) {
+        return None;
+    }
+    build_zone(&e.name, data)
+}
+
+fn build_zone_from_query(name: &str, data: &[u8]) -> Option<TimeZone> {
+    TimeZone::tzif(name, data)
+}
+
+pub fn bad_canon_helper(query: &str, e: &Entry, data: &[u8]) -> Option<TimeZone> {
+    if !e.name.eq_ignore_ascii_case(query) {
+        return None;
+    }
+    build_zone_from_query(query, data)
+}
